@@ -1,4 +1,72 @@
-import MdsVerif.Model.Mbits
+import MdsVerif.Proofs.Mbits
 import MdsVerif.Model.Mstr
-import MdsVerif.Spec.Bytes
-/-! # C20 — byte and string helpers (theorems follow) -/
+/-!
+# C20 — byte and string helpers agree with their naive definitions on every input
+
+## mbits
+
+The model (`Model/Mbits.lean`) mirrors `mbits.go` loop by loop with *checked*
+accesses: a byte access outside `[0,len)` or a 64-bit word access through
+`unsafe.Pointer(&data[i])` with any of its eight bytes outside `[0,len)` makes
+the result `oob`.  The theorems say that for **every** slice (no length
+bound) the three functions return `ok` of the naive value — so in particular
+no path reads or writes outside the slice, the unbounded inner loops
+`for data[i] == 0` / `for data[i+7] == 0` stop inside it, and the fuel of the
+model's loops is never exhausted.  (Alignment is invisible to the model; the
+harness runs every generated slice at all eight alignments between guard
+bytes.)
+-/
+namespace MdsVerif.Props.C20
+open MdsVerif.Model MdsVerif.Spec MdsVerif.Proofs
+
+/-- `LeadingZeroes` = byte-by-byte count, no out-of-slice access, for every slice -/
+theorem C20_leadingZeroes (d : List UInt8) : Mbits.leadingZeroes d = .ok (Bytes.lzCount d) := by
+  have := Mbits.lzWords_spec d (d.length + 1) 0 (by omega) (by omega) (by omega)
+  simpa [Mbits.leadingZeroes] using this
+
+/-- `TrailingZeroes` = byte-by-byte count from the end, no out-of-slice access (in particular no
+negative index), for every slice -/
+theorem C20_trailingZeroes (d : List UInt8) : Mbits.trailingZeroes d = .ok (Bytes.tzCount d) := by
+  have := Mbits.tzWords_spec d (d.length + 1) d.length 0 ((d.length : Int) - 8) rfl (by omega) rfl (by omega)
+  simpa [Mbits.trailingZeroes] using this
+
+/-- `Zero` returns `len(data)` and leaves exactly `len(data)` zero bytes; every write is inside the slice -/
+theorem C20_zero (d : List UInt8) : Mbits.zero d = .ok (d.length, Bytes.zeroed d) := by
+  have := Mbits.zWords_spec (d.length + 1) 0 d (by omega) (by simp) (by omega)
+  simp only [List.replicate_zero, List.nil_append, Nat.zero_add] at this
+  simp [Mbits.zero, this, Bytes.zeroed]
+
+/-- memory safety on its own: no function ever leaves the slice or runs out of fuel -/
+theorem C20_mbits_safe (d : List UInt8) :
+    (∃ a, Mbits.leadingZeroes d = .ok a) ∧ (∃ b, Mbits.trailingZeroes d = .ok b) ∧ (∃ c, Mbits.zero d = .ok c) :=
+  ⟨⟨_, C20_leadingZeroes d⟩, ⟨_, C20_trailingZeroes d⟩, ⟨_, C20_zero d⟩⟩
+
+/-- the naive counts are what one expects: `lzCount` zero bytes, then (if any) a non-zero one -/
+theorem lzCount_char (d : List UInt8) :
+    Bytes.lzCount d ≤ d.length ∧ (∀ i, i < Bytes.lzCount d → d[i]? = some 0) ∧
+    (Bytes.lzCount d < d.length → d[Bytes.lzCount d]? ≠ some 0) := by
+  induction d with
+  | nil => simp [Bytes.lzCount]
+  | cons b t ih =>
+    by_cases hb : b = 0
+    · simp only [Bytes.lzCount, hb, if_true, List.length_cons]
+      refine ⟨by omega, ?_, ?_⟩
+      · intro i hi
+        cases i with
+        | zero => simp
+        | succ i => simpa using ih.2.1 i (by omega)
+      · intro h; simpa using ih.2.2 (by omega)
+    · simp [Bytes.lzCount, hb]
+
+/-! non-vacuity: a 21-byte slice (ragged head/tail of 5 around two full words) whose counts are
+found inside a word, and one whose counts fall through to the byte loops -/
+example : Mbits.leadingZeroes [0,0,0,0,0,0,0,0,0,0,7,0,0,0,0,0,0,0,0,0,0] = .ok 10 := by decide
+example : Mbits.trailingZeroes [0,0,0,0,0,0,0,0,0,0,7,0,0,0,0,0,0,0,0,0,0] = .ok 10 := by decide
+example : Mbits.leadingZeroes [0,0,0,0,0,0,0,0,0,0,3] = .ok 10 := by decide
+example : Mbits.trailingZeroes [3,0,0,0,0,0,0,0,0,0,0] = .ok 10 := by decide
+example : Mbits.zero [1,2,3,4,5,6,7,8,9,10,11] = .ok (11, [0,0,0,0,0,0,0,0,0,0,0]) := by decide
+/-- the checked model does notice an out-of-slice word access: with `&^ 3` in place of `&^ 7`
+(i.e. `m = 4` for a 4-byte slice) the word loop reads past the end -/
+example : Mbits.lzWords [0,0,0,0] 4 4 5 0 = .oob := by decide
+
+end MdsVerif.Props.C20
